@@ -62,15 +62,21 @@ struct MapWorld : IWorld
       VALUE v = map[Conv<KEY>::to(arg["k"].num())];
       o.set("ret", Conv<VALUE>::from(v));
     } else if (a == "At") {
+      // const and non-const at() are evaluated independently: both must give the specified outcome
+      Json r1, r2;
       try {
         const FlatMap<KEY, VALUE> &cm = map;
-        VALUE v1 = cm.at(Conv<KEY>::to(arg["k"].num()));
-        VALUE v2 = map.at(Conv<KEY>::to(arg["k"].num()));
-        o.set("ret", Conv<VALUE>::from(v1));
-        if (!(v1 == v2)) o.set("ret", "const/non-const at() disagree");
+        r1 = Conv<VALUE>::from(cm.at(Conv<KEY>::to(arg["k"].num())));
       } catch (const std::out_of_range &) {
-        o.set("ret", "throws");
+        r1 = Json("throws");
       }
+      try {
+        r2 = Conv<VALUE>::from(map.at(Conv<KEY>::to(arg["k"].num())));
+      } catch (const std::out_of_range &) {
+        r2 = Json("throws");
+      }
+      if (r1 == r2) o.set("ret", r1);
+      else o.set("ret", "const at(): " + r1.dump() + " / non-const at(): " + r2.dump());
     } else if (a == "AtAssign") {
       try {
         map.at(Conv<KEY>::to(arg["k"].num())) = Conv<VALUE>::to(arg["v"].num());
@@ -87,18 +93,26 @@ struct MapWorld : IWorld
       map.clear();
       o.set("ret", "void");
     } else if (a == "AtIndex") {
+      Json r1, r2;
       try {
         const FlatMap<KEY, VALUE> &cm = map;
         auto &p = cm.at_index((size_t)arg["i"].num());
-        auto &q = map.at_index((size_t)arg["i"].num());
-        Json pr = Json::array();
-        pr.push(Conv<KEY>::from(p.first));
-        pr.push(Conv<VALUE>::from(p.second));
-        o.set("ret", pr);
-        if (&p != &q) o.set("ret", "const/non-const at_index() disagree");
+        r1 = Json::array();
+        r1.push(Conv<KEY>::from(p.first));
+        r1.push(Conv<VALUE>::from(p.second));
       } catch (const std::out_of_range &) {
-        o.set("ret", "throws");
+        r1 = Json("throws");
       }
+      try {
+        auto &q = map.at_index((size_t)arg["i"].num());
+        r2 = Json::array();
+        r2.push(Conv<KEY>::from(q.first));
+        r2.push(Conv<VALUE>::from(q.second));
+      } catch (const std::out_of_range &) {
+        r2 = Json("throws");
+      }
+      if (r1 == r2) o.set("ret", r1);
+      else o.set("ret", "const at_index(): " + r1.dump() + " / non-const at_index(): " + r2.dump());
     } else if (a == "IterRev") {
       Json r = Json::array();
       for (auto it = map.rbegin(); it != map.rend(); ++it) {
